@@ -60,6 +60,23 @@ fn gen_path(r: &mut Rng, depth: usize) -> String {
     } else {
         parts.push(format!("{}{}", r.pick(&NAMES), r.below(4)));
     }
+    // any ASCII byte but '/' and NUL is an ordinary name character on this file system: some names
+    // carry one that means something elsewhere (a Windows separator, a drive colon, a wildcard,
+    // a quote, a space); some are long, so that a nested path exceeds 260 bytes
+    for part in parts.iter_mut() {
+        if r.chance(1, 10) {
+            let c = *r.pick(&['\\', ' ', '\'', '"', '%', '&', '(', ';', '~', ':', '*', '?', '<', '|', '$', '`', '=', ',', '[', '{', '^', '@']);
+            let at = r.usize_below(part.len() + 1);
+            part.insert(at, c);
+        }
+        if r.chance(1, 14) {
+            let n = r.range(60, 110) as usize;
+            part.push('_');
+            for _ in 0..n {
+                part.push(*r.pick(&['l', 'o', 'n', 'g', '0']));
+            }
+        }
+    }
     parts.join("/")
 }
 
